@@ -58,6 +58,7 @@ func ruleFmt(c *Ctx) {
 		c.check(len(facts.goUnknown) == 0, "letters:go-verb", pf.Pos(), "no accepted conversion leaves a letter in the translated format that Go's fmt does not know (i u a A are rewritten)", fmt.Sprintf("the conversion(s) %v are accepted but left as they are in the format handed to fmt.Sprintf, which does not know them: the output is %%!i(int=5) instead of the number", facts.goUnknown))
 		c.check(facts.gBare && facts.gPrecKept, "gprec", pf.Pos(), "%g/%G without a precision are translated to %.6g/%.6G (with any flags and width kept), and left alone when a precision is given", "%g/%G without a precision are not given C's default precision 6 (or one with a precision is changed): Go's fmt prints the shortest exact representation (0.3333333333333333) where C printf prints 6 significant digits (0.333333)")
 		c.check(facts.gAfterPrec, "gprec:per-conversion", pf.Pos(), "a bare %g after a conversion with a precision still gets .6", "a bare %g/%G that follows a conversion with a precision in the same format is not given C's default precision 6: the flag that records the precision survives from one conversion to the next (printf \"%.2f %g\", 1/3, 1/3 prints 0.33 0.3333333333333333)")
+		c.check(facts.compositional, "letters:compositional", pf.Pos(), fmt.Sprintf("a format of two conversions translates to the translations of its conversions, in place (%d ordered pairs, 4 triples)", len(facts.accepted)*len(facts.accepted)), fmt.Sprintf("the translation of a format with several conversions is not the translation of each conversion in place (formats %v): what one conversion inserts or rewrites lands on a byte of another, so the format handed to fmt.Sprintf is garbage (printf \"%%g %%c\", 1/3, 65)", facts.nonComp))
 		c.check(facts.star && facts.percent, "star", pf.Pos(), "each `*` adds one integer argument tag before the conversion's own; %% takes no argument", "a `*` (dynamic width/precision) does not add one integer argument tag per occurrence (or %% consumes an argument): `%*.*d` then consumes too few arguments and the too-few-arguments error is lost")
 	} else {
 		tags = func() map[string]bool {
